@@ -15,7 +15,8 @@ CONSTANTS KF_ReadTooFewArgs,   \* 'cat' / 'grep' / 'tail' without arguments inde
 Envelopes == {"ok", "oldversion", "newerversion", "noprotocol", "toofewwords", "nobase64word", "badbase64", "empty"}
 Words == {"cat", "grep", "tail", "map", ".ack", "health", "unknown", ""}
 Opts == {"none", "empty", "valid", "context", "noeq", "nonint", "b64good", "b64bad", "negbefore", "hugebefore"}
-Regexes == {"none", "default", "invert", "noop", "wrongprefix", "uncompilable", "noflag", "bogusflag"}
+Regexes == {"none", "default", "invert", "noop", "wrongprefix", "uncompilable", "noflag", "bogusflag",
+            "flaglist_in", "flaglist_dn", "flaglist_ni", "flaglist_bdn"}   \* flag lists: invert,noop / default,noop / noop,invert / bogus,default,noop
 Queries == {"valid", "empty", "blank", "lonebackquote", "unknownkeyword", "truncated", "badlogformat", "unknownagg"}
 \* queries the parser accepts whose numbers sit on a boundary (they reach timers, limits and slices in the aggregator)
 BoundaryQueries == {"interval0", "intervalneg", "intervalhuge", "limit0", "limitneg", "rorderlimit1", "setclause", "manyselect"}
